@@ -1,6 +1,7 @@
 package interp
 
 import (
+	"crypto/sha256"
 	"fmt"
 	"go/token"
 	"go/types"
@@ -206,8 +207,12 @@ func init() {
 		"os.Getenv":              constFn(""),
 		"os.LookupEnv":           constFn(tuple{"", false}),
 		"os.Getpid":              constFn(4242),
+		"os.Setenv":              constFn(iface{}),
+		"os.Unsetenv":            constFn(iface{}),
+		"github.com/shirou/gopsutil/v4/host.Info":         envUnavailable,
+		"github.com/shirou/gopsutil/v4/mem.VirtualMemory": envUnavailable,
 		"os.Hostname":            func(fr *frame, args []value) value { return tuple{"verif-host", iface{}} },
-		"os.Exit":                func(fr *frame, args []value) value { panic(targetPanic{fr.i.runtimeError("os.Exit called")}) },
+		"os.Exit":                func(fr *frame, args []value) value { panic(targetPanic{v: fr.i.runtimeError("os.Exit called")}) },
 		"time.Sleep":             func(fr *frame, args []value) value { fr.i.yield(fr); return nil },
 		"time.Now":               timeNow,
 		"time.runtimeNano":       constFn(int64(1)),
@@ -224,6 +229,20 @@ func init() {
 		"github.com/google/uuid.New":       uuidNew,
 		"github.com/google/uuid.NewString": constFn("3f2c1a9e-7b4d-4c6a-9e1f-0a1b2c3d4e5f"),
 		"github.com/google/uuid.NewRandom": func(fr *frame, args []value) value { return tuple{uuidNew(fr, nil), iface{}} },
+
+		// ---- default prelude: logging is never part of a property
+		"github.com/tucats/ego/internal/cli/ui.Log":      noop,
+		"github.com/tucats/ego/internal/cli/ui.WriteLog": noop,
+		"github.com/tucats/ego/internal/cli/ui.IsActive": constFn(false),
+		"crypto/sha256.Sum256": func(fr *frame, a []value) value {
+			b := concreteBytes(a[0])
+			h := sha256.Sum256(b)
+			out := make(array, 32)
+			for i := range out {
+				out[i] = h[i]
+			}
+			return out
+		},
 
 		// ---- math (bit casts cannot be interpreted in the boxed representation)
 		"math.Float64bits":     func(fr *frame, a []value) value { return math.Float64bits(a[0].(float64)) },
@@ -325,6 +344,24 @@ func durFloat(unit int64) intrinsic {
 		}
 		return fr.i.interpretBody(fr, args)
 	}
+}
+
+func concreteBytes(v value) []byte {
+	bs := v.([]value)
+	out := make([]byte, len(bs))
+	for i, e := range bs {
+		c, ok := e.(uint8)
+		if !ok {
+			panic(engineError{"a cryptographic hash was applied to symbolic bytes (stub it with an ideal model)"})
+		}
+		out[i] = c
+	}
+	return out
+}
+
+// envUnavailable models an operating-system query that fails: (nil, error).
+func envUnavailable(fr *frame, args []value) value {
+	return tuple{(*value)(nil), fr.i.callNamed("errors", "New", "not available under symbolic execution")}
 }
 
 func noopRet(v value) intrinsic { return func(fr *frame, args []value) value { return v } }
@@ -553,21 +590,34 @@ func mutexLock(fr *frame, args []value) value {
 	return nil
 }
 
-// mutexState finds the int32 state word of a sync.Mutex (which wraps
-// internal/sync.Mutex in recent Go versions).
+// mutexState finds the int32 state word of a sync.Mutex (whose layout wraps
+// internal/sync.Mutex behind a noCopy marker in recent Go versions).
 func mutexState(p value) *value {
-	s := (*p.(*value)).(structure)
-	if inner, ok := s[0].(structure); ok {
-		return &inner[0]
+	if st := findInt32((*p.(*value)).(structure)); st != nil {
+		return st
 	}
-	return &s[0]
+	panic(engineError{"sync.Mutex layout"})
+}
+
+func findInt32(s structure) *value {
+	for i := range s {
+		switch f := s[i].(type) {
+		case int32:
+			return &s[i]
+		case structure:
+			if r := findInt32(f); r != nil {
+				return r
+			}
+		}
+	}
+	return nil
 }
 
 func mutexUnlock(fr *frame, args []value) value {
 	in := fr.i
 	st := mutexState(args[0])
 	if asInt64(*st) == 0 {
-		panic(targetPanic{in.runtimeError("sync: unlock of unlocked mutex")})
+		panic(targetPanic{v: in.runtimeError("sync: unlock of unlocked mutex")})
 	}
 	in.set(st, int32(0))
 	in.yield(fr)
@@ -589,15 +639,24 @@ func mutexTryLock(fr *frame, args []value) value {
 // We keep: writer held flag in w.state, reader count in readerCount.v.
 func rwParts(p value) (w *value, rc *value) {
 	s := (*p.(*value)).(structure)
-	ws := s[0].(structure)
-	if inner, ok := ws[0].(structure); ok {
-		w = &inner[0]
-	} else {
-		w = &ws[0]
+	// first Mutex-typed field is w; readerCount is the first atomic.Int32 after it
+	var ints []*value
+	var walk func(st structure)
+	walk = func(st structure) {
+		for i := range st {
+			switch f := st[i].(type) {
+			case int32:
+				ints = append(ints, &st[i])
+			case structure:
+				walk(f)
+			}
+		}
 	}
-	rcs := s[3].(structure)
-	rc = &rcs[len(rcs)-1]
-	return
+	walk(s)
+	if len(ints) < 2 {
+		panic(engineError{"sync.RWMutex layout"})
+	}
+	return ints[0], ints[1]
 }
 
 func rwLock(fr *frame, args []value) value {
@@ -613,7 +672,7 @@ func rwUnlock(fr *frame, args []value) value {
 	in := fr.i
 	w, _ := rwParts(args[0])
 	if asInt64(*w) == 0 {
-		panic(targetPanic{in.runtimeError("sync: Unlock of unlocked RWMutex")})
+		panic(targetPanic{v: in.runtimeError("sync: Unlock of unlocked RWMutex")})
 	}
 	in.set(w, int32(0))
 	in.yield(fr)
@@ -633,7 +692,7 @@ func rwRUnlock(fr *frame, args []value) value {
 	in := fr.i
 	_, rc := rwParts(args[0])
 	if asInt64(*rc) <= 0 {
-		panic(targetPanic{in.runtimeError("sync: RUnlock of unlocked RWMutex")})
+		panic(targetPanic{v: in.runtimeError("sync: RUnlock of unlocked RWMutex")})
 	}
 	in.set(rc, int32(asInt64(*rc)-1))
 	in.yield(fr)
@@ -684,7 +743,7 @@ func wgAdd(fr *frame, args []value) value {
 	c := wgCounter(args[0])
 	n := int64((*c).(uint64)) + asInt64(args[1])
 	if n < 0 {
-		panic(targetPanic{in.runtimeError("sync: negative WaitGroup counter")})
+		panic(targetPanic{v: in.runtimeError("sync: negative WaitGroup counter")})
 	}
 	in.set(c, uint64(n))
 	in.yield(fr)
@@ -984,7 +1043,7 @@ func errorsAs(fr *frame, args []value) value {
 	err := args[0].(iface)
 	tgt := args[1].(iface)
 	if tgt.t == nil {
-		panic(targetPanic{in.runtimeError("errors: target cannot be nil")})
+		panic(targetPanic{v: in.runtimeError("errors: target cannot be nil")})
 	}
 	ptr := tgt.v.(*value)
 	elemT := deref(tgt.t)
